@@ -90,15 +90,23 @@ def judge_trace(ctx, spec_dir, module, cfg, trace_name, trace_path, what, chunks
     chunks = chunks or max(1, min(8, NCPU // 2, (n + 1999) // 2000))
     per = (n + chunks - 1) // chunks
     stride = max(1, NCPU // chunks)
+    def prepare(k, part):
+        """A fresh chunk directory with the chunk's lines, read back to make sure
+        that what TLC will see is what was recorded."""
+        d = clone_dir(spec_dir, "%s_part%d" % (Path(spec_dir).name + "_" + module, k))
+        tf = d / trace_name
+        tf.write_text("\n".join(part) + "\n", encoding="utf-8")
+        if count_lines(tf) != len(part):
+            raise CheckerError("chunk file %s has %d lines after writing %d" % (tf, count_lines(tf), len(part)))
+        write_cfg(d / cfg, "TSpec", {"Stride": stride, "NLines": len(part)}, invariants=["LinesOK"])
+        return d
+
     jobs = []
     for k in range(chunks):
         part = lines[k * per:(k + 1) * per]
         if not part:
             continue
-        d = clone_dir(spec_dir, "%s_part%d" % (Path(spec_dir).name + "_" + module, k))
-        (d / trace_name).write_text("\n".join(part) + "\n")
-        write_cfg(d / cfg, "TSpec", {"Stride": stride}, invariants=["LinesOK"])
-        jobs.append((k, d, part))
+        jobs.append((k, prepare(k, part), part))
 
     def one(job):
         k, d, part = job
@@ -106,15 +114,34 @@ def judge_trace(ctx, spec_dir, module, cfg, trace_name, trace_path, what, chunks
                        label="trace:%s[%d]" % (what, k), timeout=1500,
                        env={"JAVA_TOOL_OPTIONS": "-Xss64m -Xmx2500m -XX:ParallelGCThreads=2"})
 
+    def incomplete(r, part):
+        # TLC must have visited every line (or stopped at a rejected one); the trace spec's
+        # assumption TraceComplete fails when the file it read is not the file written.
+        return ("TRACE-LINES" in r.out and "Assumption" in r.out and "is false" in r.out) or \
+               (r.rc == 0 and not r.violated and r.distinct < len(part))
+
+    retried = []
+
     def one_checked(job):
+        k, d, part = job
         r = one(job)
-        if r.rc == 0 and not r.violated and r.distinct < len(job[2]):
-            # TLC stopped early without saying why (seen once on an overloaded machine): once more
+        if incomplete(r, part):
+            tf = d / trace_name
+            m = re.search(r'"TRACE-LINES", (\d+), (\d+)', r.out)
+            retried.append({"chunk": k, "lines_written": len(part), "lines_tlc_read": int(m.group(1)) if m else None,
+                            "file_bytes_afterwards": tf.stat().st_size if tf.exists() else -1,
+                            "file_lines_afterwards": count_lines(tf) if tf.exists() else -1,
+                            "tlc_visited": r.distinct})
+            # once more in a directory written afresh
+            job = (k, prepare(k, part), part)
             r = one(job)
         return r
 
     with ThreadPoolExecutor(max_workers=len(jobs)) as ex:
         results = list(ex.map(one_checked, jobs))
+    if retried:
+        ctx.extra.setdefault("trace_chunks_judged_twice", []).extend(retried)
+        print("NOTE %s: %d trace chunk(s) had to be judged a second time: %s" % (ctx.prop, len(retried), json.dumps(retried)))
     for (k, d, part), r in zip(jobs, results):
         ctx.states += r.distinct
         ctx.transitions += r.generated
@@ -127,12 +154,20 @@ def judge_trace(ctx, spec_dir, module, cfg, trace_name, trace_path, what, chunks
             ctx.mismatch("%s: recorded line not allowed by %s: %s" % (what, module, bad[:400]),
                          "the recorded behaviour of the real code is not allowed by the TLA+ grammar",
                          {"trace_spec": module, "line": k * per + idx[-1], "rejected_event": json.loads(bad)})
-        elif r.rc != 0 or r.violated:
+        elif r.rc != 0 and not incomplete(r, part) or r.violated:
+            if "StackOverflowError" in r.out:
+                raise CheckerError("TLC ran out of stack on trace spec %s (chunk %d); a recorded line is too deep for the "
+                                   "worker stack (-Xss):\n%s" % (module, k, "\n".join(r.out.splitlines()[-25:])))
             raise CheckerError("TLC failed on trace spec %s (rc=%d, violated=%s):\n%s"
                                % (module, r.rc, r.violated, "\n".join(r.out.splitlines()[-40:])))
-        elif r.distinct < len(part):
-            raise CheckerError("trace spec %s visited %d of %d lines (twice):\n%s"
-                               % (module, r.distinct, len(part), "\n".join(r.out.splitlines()[-40:])))
+        elif incomplete(r, part):
+            tf = d / trace_name
+            keep = Path("/tmp") / ("verif-failed-chunk-%s-%d" % (ctx.prop, os.getpid()))
+            shutil.copytree(d, keep, dirs_exist_ok=True)
+            raise CheckerError("trace spec %s visited %d of %d lines (twice); chunk file %s: %d bytes, %d lines; "
+                               "chunk directory saved as %s; TLC said:\n%s"
+                               % (module, r.distinct, len(part), tf, tf.stat().st_size if tf.exists() else -1,
+                                  count_lines(tf) if tf.exists() else -1, keep, r.out[-6000:]))
         shutil.rmtree(d, ignore_errors=True)
     ctx.traces += n
     return n
